@@ -123,7 +123,13 @@ func runPath(st *stack.Stack, p Path, out *Out, mu *sync.Mutex) {
 		}
 		mu.Unlock()
 	}
-	cl, err := stack.DialStd(st.Addr, stack.DialOpts{ALPN: []string{"h2"}}, nil)
+	// every seventh path arrives on a connection whose ClientHello spans two TLS records: JA3 and JA4 have nothing to say about it, the
+	// HTTP/2 fingerprint is owed all the same
+	do := stack.DialOpts{ALPN: []string{"h2"}}
+	if p.ID%7 == 3 {
+		do.Fragment = 37
+	}
+	cl, err := stack.DialStd(st.Addr, do, nil)
 	if err != nil {
 		fail("dial: " + err.Error())
 		return
